@@ -52,7 +52,9 @@ OpsLists == { <<AllOps[i]>> : i \in 1..8 } \cup { <<AllOps[i], AllOps[j]>> : i \
 OpsKds == { X(WithMeta(k, [alg |-> NONE, kid |-> "ops", use |-> NONE, ops |-> o], NONE), E0 @@ [extra |-> <<>>]) :
               k \in { OctKey(32, "a", NONE, NONE), AsymKey("p256a", 0, NONE, NONE), AsymKey("ed25519a", 1, NONE, NONE) }, o \in OpsLists }
 Plain(k) == k.kid = NONE /\ k.use = NONE /\ k.ops = <<>> /\ k.alg = NONE
-Kds == AsymMeta \cup AsymEnc \cup OctMeta \cup OctEnc \cup OpsKds
+\* keys outside the usual: a public exponent wider than a machine word, a modulus of 9216 bits, a short private exponent
+ExtraKds == { X(AsymKey(b, p, NONE, NONE), e @@ [extra |-> <<>>]) : b \in {"rsa2048e", "rsa9216a", "rsa2048z"}, p \in {0, 1}, e \in Enc }
+Kds == AsymMeta \cup AsymEnc \cup OctMeta \cup OctEnc \cup OpsKds \cup ExtraKds
 
 L(via, doc, kds) == [op |-> "Load", ring |-> 0, via |-> via, doc |-> doc, keys |-> kds]
 \* history: a defective key imported earlier - in the same set, or by an earlier call - must not change
